@@ -1,2 +1,4 @@
 import Dawgs.Props.C09
 import Dawgs.Props.C16
+import Dawgs.Props.C16Conc
+import Dawgs.Props.C16Locks
